@@ -562,6 +562,31 @@ theorem nobatch_accept (c : SCfg) (ls : List Label) (hc : Clean0 (accept c ls) =
       exact ih _ (nobatch_step c s l h (clean0_foldl_mono c rest _ hc)) hc
   exact gen ls {} (fun _ => rfl) hc
 
+/-! ### user code runs only for attempts in flight, while `execute` awaits its scenarios -/
+def attOf (e : Entry) : Nat := (e.ret.map (·.retries.current)).getD 0
+
+theorem cbIn_clean (c : SCfg) (s : SState) (sc att t : Nat) (hs : s.dis = [])
+    (hc : (stepL c s (.cbIn sc att t)).dis = []) :
+    s.phase = .selecting ∧ ∃ e ∈ s.running, e.key.scen = sc ∧ attOf e = att := by
+  simp only [stepL] at hc
+  split at hc
+  · rename_i h
+    simp only [Bool.and_eq_true, beq_iff_eq, any_eq_true] at h
+    obtain ⟨hp, e, he, h1, h2⟩ := h
+    exact ⟨hp, e, he, h1, h2⟩
+  · simp [SState.note, hs] at hc
+
+theorem cbOut_clean (c : SCfg) (s : SState) (sc att t : Nat) (hs : s.dis = [])
+    (hc : (stepL c s (.cbOut sc att t)).dis = []) :
+    s.phase = .selecting ∧ ∃ e ∈ s.running, e.key.scen = sc ∧ attOf e = att := by
+  simp only [stepL] at hc
+  split at hc
+  · rename_i h
+    simp only [Bool.and_eq_true, beq_iff_eq, any_eq_true] at h
+    obtain ⟨hp, e, he, h1, h2⟩ := h
+    exact ⟨hp, e, he, h1, h2⟩
+  · simp [SState.note, hs] at hc
+
 /-! ### the counts, in words -/
 def isGet2 : Label → Bool | .get2 .. => true | _ => false
 def isIdleContinue : Label → Bool | .idleContinue => true | _ => false
